@@ -32,7 +32,7 @@ def scenario(ctx, i, trainer=None):
     trainer = trainer or TRAINERS[i % len(TRAINERS)]
     C, D = 2, int(r.integers(2, 4))
     n_small = int(r.integers(3, 7))
-    N = n_small if (i % 3 == 0 and trainer in ("kmeans", "gmm_ml", "gmm_map")) else int(r.integers(8, 20))
+    N = n_small if (r.random() < 0.35 and trainer in ("kmeans", "gmm_ml", "gmm_map")) else int(r.integers(8, 20))
     if trainer in ("isv", "jfa", "wccn", "whitening"):
         N = max(N, 4 * D + 4)
     w, m, v, _ = gen.gmm_params(r, C, D, scales=np.ones(D))
@@ -44,9 +44,9 @@ def scenario(ctx, i, trainer=None):
     else:
         rows = gen.random_composition(r, N)
     cols = (D,)
-    if trainer in ("kmeans", "gmm_ml", "gmm_map") and i % 4 == 1 and D >= 2:
+    if trainer in ("kmeans", "gmm_ml", "gmm_map") and r.random() < 0.25 and D >= 2:
         cols = gen.random_composition(r, D)
-    return dict(trainer=trainer, C=C, D=D, w=w, m=m, v=v, X=X, y=y, rows=rows, cols=cols, steps=int(r.integers(1, 4)), thr=None if i % 2 else 1e-3)
+    return dict(trainer=trainer, C=C, D=D, w=w, m=m, v=v, X=X, y=y, rows=rows, cols=cols, steps=int(r.integers(1, 4)), thr=None if r.random() < 0.5 else 1e-3)
 
 
 def train(sc, X_in):
@@ -93,6 +93,16 @@ def as_dask(sc):
 
 
 def same(a, b, tol=1e-9):
+    if _same(a, b, tol):
+        return True
+    # A cluster with (effectively) one sample has a variance that is pure cancellation noise (E[x^2] - mean^2 of order
+    # 1e-8 x^2): any two summation orders then differ by ~1e-8 relative in that entry and, through log var, by ~1e-9 in the
+    # criterion.  Such runs are compared at 1e-6 instead (still far below what a wrong result produces).
+    tiny = any(np.size(x) and np.min(np.abs(np.asarray(x, float))) < 1e-6 * np.max(np.abs(np.asarray(x, float))) for x in a["params"])
+    return tiny and _same(a, b, 1e-6)
+
+
+def _same(a, b, tol):
     if a["iters"] != b["iters"]:
         return False
     if (a["crit"] is None) != (b["crit"] is None) or (a["crit"] is not None and not core.close(a["crit"], b["crit"], tol, 1e-12)):
